@@ -321,10 +321,10 @@ fn dec_value(bytes: &[u8], idx: &mut usize, depth: usize) -> Result<Value> {
             let i = if major == 0 {
                 Integer::from(n)
             } else {
+                // Major 1 carries `-1 - n` over the full `[-2^64, -1]` range the encoder emits.
                 let neg = -(1i128 + i128::from(n));
-                let signed = i64::try_from(neg)
-                    .map_err(|_| CanonError::Decode("integer out of range".into()))?;
-                Integer::from(signed)
+                Integer::try_from(neg)
+                    .map_err(|_| CanonError::Decode("integer out of range".into()))?
             };
             Ok(Value::Integer(i))
         }
